@@ -113,6 +113,21 @@ def random_legal_config(rng, gapless, with_params=False):
 
 # ------------------------------------------------------------------ families
 
+def documented_modes():
+    """{feature key: [documented mode values]} from the Docs.lean regenerated on this run"""
+    import stages
+    out = {}
+    try:
+        txt = open(os.path.join(stages.LEAN_DIR, "EnumToolsModel", "Generated", "Docs.lean")).read()
+    except OSError:
+        return out
+    for m in re.finditer(r'key := "([^"]+)".*?modes := \[([^\]]*)\]', txt):
+        ms = re.findall(r'"([^"]+)"', m.group(2))
+        if ms:
+            out[m.group(1)] = ms
+    return out
+
+
 class ProbeSet:
     def __init__(self, seed, tier):
         self.rng = random.Random(seed * 7919 + 13)
@@ -156,8 +171,26 @@ class ProbeSet:
                     if not legal(feats, gap):
                         continue
                     self.add("C10", f"single:{f}:{m}:{sname}", "accept", simple_enum("", r, vals, feats))
-            # the documented mode "match" of iter (src/lib.rs) -- see known findings
-            self.add("C10", f"iter-mode-match:{sname}", "accept", simple_enum("", r, vals, [("iter", {"mode": "match"})]))
+            # `iter` left on auto together with `range`, under every combination of the three string features being absent, in
+            # match mode, in table mode or on auto: what `auto` becomes, and which tables the second enable pass must still add,
+            # depends on exactly this
+            if sname in ("gapless", "holes"):
+                for a in (None, "match", "table", "auto"):
+                    for b in (None, "match", "table", "auto"):
+                        for c3 in (None, "match", "table", "auto"):
+                            feats = [("iter", {}), ("range", {})]
+                            for fn, md in (("as_str", a), ("from_str", b), ("FromStr", c3)):
+                                if md is not None:
+                                    feats.append((fn, {"mode": md} if md != "auto" else {}))
+                            self.add("C10", f"iter-auto-range:{a}:{b}:{c3}:{sname}", "accept", simple_enum("", r, vals, feats))
+            # every mode value the documentation (src/lib.rs, as regenerated into Docs.lean on this run) lists for a feature and that
+            # the generator above does not already use: e.g. "match" of iter -- see known findings
+            for f, modes in sorted(documented_modes().items()):
+                for m in modes:
+                    if m in (MODE_OPTS.get(f) or []) or m == "auto":
+                        continue
+                    feats = [(f, {"mode": m})] + ([("iter", {})] if f == "range" else [])
+                    self.add("C10", f"{f}-mode-{m}:{sname}", "accept", simple_enum("", r, vals, feats))
             # struct_name, name, vis
             self.add("C10", f"struct_name:{sname}", "accept",
                      simple_enum("", r, vals, [("iter", {"struct_name": "MyIt"}), ("names", {"struct_name": "MyNames", "name": "all_names", "vis": "pub(crate)"})]))
